@@ -32,7 +32,7 @@ Binds == <<1, 2, 3, 4, 5, 2, 1, 2, 2>>           \* shapes 1..5: exact; 6: calla
                                                  \* 9: void(int) that throws every time it is called (C09): the listeners behind it do not run, the
                                                  \*    exception leaves the invocation / dispatch / processing call, which discards the events it had taken
 MaxListenerEnq == 3
-Accepts == <<1, 2, 2, 3, 4, 5, 2>>               \* (), (int), (long), (TS), (Big), (int,TS), (char)
+Accepts == <<1, 2, 2, 3, 4, 5, 2, 2>>               \* (), (int), (long), (TS), (Big), (int,TS), (char), (float: converts to int, another representation)
 Callable == <<{1}, {2}, {3}, {4}, {5}, {2, 5}>>   \* predicates: bool(), bool(int), bool(const TS&), bool(const Big&), bool(int,const TS&), generic {(int), (int,const TS&)}
 
 \* TLC configuration files cannot spell negative numbers: an element 100 + k of Counts stands for the trigger count -k
@@ -95,10 +95,12 @@ ProtosOf(evs) == [i \in 1..Len(evs) |-> evs[i].p]
 \* the triggers ps happen one after the other; what stays queued is `rest`, the events enqueued by listeners go behind it
 Fire(ps, rest) == LET t == TrigAll(ps, lst, kind, nle)  new == t.ne - nle IN
                   /\ lst' = t.ls /\ kind' = t.kd /\ nle' = t.ne /\ nuid' = nuid + new
-                  /\ pending' = rest \o [i \in 1..new |-> [uid |-> nuid + i, p |-> 2]]
+                  /\ pending' = rest \o [i \in 1..new |-> [uid |-> nuid + i, p |-> 2, cv |-> 0]]
 OpInvoke(a) == /\ "iv" \in Ops /\ ninv < MaxInv /\ ninv' = ninv + 1 /\ Fire(<<Accepts[a]>>, pending)
                /\ UNCHANGED <<ncb, consumed, flt, fkd>> /\ H("iv", a, 0)
-OpEnqueue(a) == /\ "nq" \in Ops /\ nuid < MaxEnq /\ pending' = Append(pending, [uid |-> nuid + 1, p |-> Accepts[a]]) /\ nuid' = nuid + 1
+\* (cv: the event was enqueued with an argument that CONVERTS to the prototype's parameter type - what the slot then holds is part of the
+\* state, so that the cover also continues such histories: processIf after a converting enqueue, seed S93)
+OpEnqueue(a) == /\ "nq" \in Ops /\ nuid < MaxEnq /\ pending' = Append(pending, [uid |-> nuid + 1, p |-> Accepts[a], cv |-> IF a \in {3, 7, 8} THEN a ELSE 0]) /\ nuid' = nuid + 1
                 /\ UNCHANGED <<lst, kind, ncb, ninv, consumed, nle, flt, fkd>> /\ H("nq", a, 0)
 OpProcess == /\ "pa" \in Ops /\ consumed' = consumed \cup {pending[i].uid : i \in 1..Len(pending)} /\ Fire(ProtosOf(pending), <<>>)
              /\ UNCHANGED <<ncb, ninv, flt, fkd>> /\ H("pa", 0, 0)
